@@ -224,7 +224,7 @@ func TestC16(t *testing.T) {
 	if !hx.Thorough() {
 		maxOps = 16
 	}
-	rec.Extra["max_calls_per_goroutine"] = maxOps
+	rec.Extra["max_calls_per_goroutine"] = fmt.Sprint(maxOps)
 	rapid.Check(t, func(t *rapid.T) {
 		c := drawCase(t, maxOps)
 		fails, labels, _ := runCase(c)
@@ -233,6 +233,7 @@ func TestC16(t *testing.T) {
 			labels = append(labels, "known-triggers-avoided")
 		}
 		rec.Eval(c, nontrivial(labels), labels...)
+		fmt.Printf("C16 case %s nontrivial=%v failures=%d labels=%v\n", c, nontrivial(labels), len(fails), labels)
 		verdict(t, c, fails)
 	})
 }
